@@ -1,20 +1,25 @@
 """C08 - alias / JSON configuration builds the same objects as explicit construction.
 
-Proof: coq/C08 (stack machine of AliasedFactory.from_alias on arbitrary class
-graphs and its exact specification on class trees; alias_factory_subclass_from_arg;
-nested configurations) about coq/C08/Model.v and the registry gen/C08_Registry.v.
+Proof: coq/C08 (the loop of AliasedFactory.from_alias - stack, seen, match, comparison
+of _registration_index - on arbitrary class graphs: the last registered carrier of the
+alias wins in any hierarchy; alias_factory_subclass_from_arg; nested configurations)
+about coq/C08/Model.v and the registry gen/C08_Registry.v.
 
 Tie: (1) translator gen/registry.py regenerates the class / alias / constructor
 registry from the sources on every run and the theorems are re-checked against it;
 (2) the generated registry is compared with the classes that exist at run time;
 (3) correspondence: the model is evaluated inside Coq on the same inputs as the
-implementation - from_alias on random run-time class trees and graphs (created
-with type(), registration interleaved with look-ups), alias_factory_subclass_from_arg
+implementation - from_alias on random run-time class trees and graphs (class
+statements and type(), branches registered in any order - NOT depth first -,
+registration interleaved with look-ups, multiple inheritance, inherited alias sets,
+one alias in 3+ branches; the model's registration order is the order in which the
+harness created the classes, compared with _registration_index), alias_factory_subclass_from_arg
 on generated arguments (instances, strings, mappings, malformed), nested
 configurations (alias-built, explicitly built, implementation-built objects).
 
 Search: direct statements of the property on the implementation (every alias of
-every class, unknown alias, shadowing, argument immutability, JSON twin features).
+every class, unknown alias, among all descendants carrying the alias the most recently
+defined one is instantiated, argument immutability, JSON twin features).
 """
 
 import copy
@@ -35,6 +40,11 @@ REQ = (
     "Local Open Scope string_scope.\nLocal Open Scope Z_scope.\n"
 )
 ALPHABET = ["a", "b", "c", "d", "e"]
+
+# gen/registry.py pins the source text of class AliasedFactory that Model.v was written for.  A
+# difference is not by itself a defect (behaviour-preserving rewrites exist): by default it is logged,
+# counted, and the correspondence on run-time class hierarchies is doubled.  True: report it as a broken tie.
+PIN_IS_FATAL = False
 
 # valid plain (non-nested) keyword values; the model does not look at them
 PLAIN = {
@@ -326,6 +336,18 @@ def check_registry_tie(ctx, w):
             walk(k, kid)
 
     walk(runtime_tree(w.cls[0], None), 0)
+    # class identities of the generated registry = registration order = order of _registration_index
+    ri = [(i, w.cls[i].__dict__.get("_registration_index")) for i in sorted(w.cls)]
+    if any(v is None for _, v in ri):
+        problems.append("classes without a _registration_index of their own: %r" % [w.by_id[i]["name"] for i, v in ri if v is None][:4])
+    else:
+        if ri[0][1] != 0:
+            problems.append("AliasedFactory._registration_index is %r, not 0" % (ri[0][1],))
+        for (i, a), (j, b) in zip(ri, ri[1:]):
+            if not a < b:
+                problems.append("registration order: generated %s before %s, run time _registration_index %r, %r" % (
+                    w.by_id[i]["name"], w.by_id[j]["name"], a, b))
+                break
     return problems
 
 
@@ -333,11 +355,12 @@ def check_registry_tie(ctx, w):
 # from_alias on scratch class trees / graphs
 
 
-def py_spec_tree(tree, alias):
-    """first class carrying the alias: subclasses before their base, later siblings first"""
+def old_dfs_answer(tree, alias):
+    """What the loop BEFORE the repair returned (first carrier: subclasses before their base,
+    later siblings first) - only used to count how many look-ups exercise the repaired case."""
     cid, als, kids = tree
     for k in reversed(kids):
-        r = py_spec_tree(k, alias)
+        r = old_dfs_answer(k, alias)
         if r is not None:
             return r
     return cid if alias in als else None
@@ -365,23 +388,74 @@ def ctree_term(tree):
     return "(Node %d %s %s)" % (cid, clist(cstr(a) for a in als), clist(ctree_term(k) for k in kids))
 
 
+def make_class(r, name, bases, ns):
+    """A new class, by a class statement or by type()."""
+    if len(bases) == 1 and r.random() < 0.4:
+        base = bases[0]
+        if "aliases" in ns:
+            als = ns["aliases"]
+
+            class K(base):
+                aliases = als
+        else:
+            class K(base):
+                pass
+        K.__name__ = K.__qualname__ = name
+        return K
+    return type(name, bases, dict(ns))
+
+
+def hierarchy_of(classes, idx):
+    """[id, ids of the bases (none: AliasedFactory), effective aliases] in creation order: replayable."""
+    return [[idx[c], [idx[b] for b in c.__bases__ if b in idx], sorted(c.aliases)] for c in classes]
+
+
+def build_hierarchy(AF, hier):
+    made = {}
+    for cid, bases, als in hier:
+        made[cid] = type("C08Replay%d" % cid, tuple(made[b] for b in bases) or (AF,), {"aliases": set(als)})
+    return made
+
+
+def last_registered_carrier(hier, start, alias):
+    """The clause, outright: among all descendants of ``start`` (itself included) that carry the
+    alias, the most recently defined one (ids are in order of definition)."""
+    below = {start}
+    for cid, bases, als in hier:
+        if any(b in below for b in bases):
+            below.add(cid)
+    carriers = [cid for cid, bases, als in hier if cid in below and alias in als]
+    return max(carriers) if carriers else None
+
+
 def scratch_cases(ctx, w, n_cases, dag):
-    """Create class hierarchies at run time, interleaving registration and look-ups."""
+    """Create class hierarchies at run time - branches registered in any order, registration
+    interleaved with look-ups - and look aliases up from the root and from inner classes."""
     r = ctx.rng
     AF = w.alias_mod.AliasedFactory
     cases, oracle_bad = [], []
+    reported = set()
     for case_no in range(n_cases):
         absent = "zz"
         classes = []
         n = r.randint(1, 10 if not dag else 8)
+        shape = r.choice(["random", "deep", "flat", "random", "branches", "zigzag", "branches"])
+        if shape in ("branches", "zigzag"):
+            n = max(n, r.randint(5, 10 if not dag else 8))
+        hot = r.choice(ALPHABET)  # an alias that many classes of this hierarchy share
+        p_hot = r.choice([0.0, 0.3, 0.6]) if shape not in ("branches", "zigzag") else r.choice([0.5, 0.7])
         ns = {"aliases": set(r.sample(ALPHABET, r.choice([0, 0, 1, 2])))}
         classes.append(type("C08Scratch0", (AF,), ns))
         snap_at = set(r.sample(range(1, n + 1), min(n, r.choice([1, 1, 2, 3])))) | {n}
-        shape = r.choice(["random", "deep", "flat", "random"])
+        n_branches = r.randint(3, 4)
+        tips = []  # branches / zigzag: the most recent class of each branch
         for i in range(1, n + 1):
             ns = {}
             if r.random() < 0.8:
-                ns["aliases"] = set(r.sample(ALPHABET, r.choice([0, 1, 1, 2, 3])))
+                als = set(r.sample(ALPHABET, r.choice([0, 1, 1, 2, 3])))
+                if r.random() < p_hot:
+                    als.add(hot)
+                ns["aliases"] = als
             bases = None
             if dag and len(classes) >= 2 and r.random() < 0.45:
                 for _ in range(4):
@@ -393,12 +467,44 @@ def scratch_cases(ctx, w, n_cases, dag):
                     except TypeError:
                         cls = None
             if bases is None:
-                base = classes[-1] if shape == "deep" and r.random() < 0.8 else classes[0] if shape == "flat" and r.random() < 0.8 else r.choice(classes)
-                cls = type("C08Scratch%d" % i, (base,), dict(ns))
+                if shape == "branches":
+                    # 3+ branches below the root, extended in random (cross-branch) order
+                    if len(tips) < n_branches:
+                        base, slot = classes[0], len(tips)
+                        tips.append(None)
+                    else:
+                        slot = r.randrange(len(tips))
+                        base = tips[slot] if r.random() < 0.8 else r.choice(classes)
+                elif shape == "zigzag":
+                    # two chains extended alternately: never depth first
+                    if len(tips) < 2:
+                        base, slot = classes[0], len(tips)
+                        tips.append(None)
+                    else:
+                        slot = i % 2
+                        base = tips[slot]
+                else:
+                    slot = None
+                    base = classes[-1] if shape == "deep" and r.random() < 0.8 else classes[0] if shape == "flat" and r.random() < 0.8 else r.choice(classes)
+                cls = make_class(r, "C08Scratch%d" % i, (base,), ns)
+                if slot is not None:
+                    tips[slot] = cls
             classes.append(cls)
             if i not in snap_at:
                 continue
             idx = {c: j for j, c in enumerate(classes)}
+            hier = hierarchy_of(classes, idx)
+            # the registration order the model is given (= order of creation) against _registration_index
+            ri = [c.__dict__.get("_registration_index") for c in classes]
+            if any(v is None for v in ri):
+                ctx.count("from_alias:registration-index-missing")
+                if "noindex" not in reported:
+                    reported.add("noindex")
+                    oracle_bad.append(("class_without_registration_index", dict(hierarchy=hier, registration_index=ri)))
+            elif any(not a < b for a, b in zip(ri, ri[1:])):
+                oracle_bad.append(("registration_index_not_in_order_of_definition", dict(hierarchy=hier, registration_index=ri)))
+            else:
+                ctx.count("from_alias:registration-index-in-creation-order")
             # snapshot
             if dag:
                 graph = [(idx[c], sorted(c.aliases), [idx[k] for k in c.__subclasses__()]) for c in classes]
@@ -406,11 +512,13 @@ def scratch_cases(ctx, w, n_cases, dag):
                 def snap(c):
                     return (idx[c], sorted(c.aliases), [snap(k) for k in c.__subclasses__()])
                 tree = snap(classes[0])
+                pre = tree_ids(tree)
+                ctx.count("from_alias:tree:%s" % ("registered-depth-first" if pre == sorted(pre) else "NOT-registered-depth-first"))
             queries = []
             nontrivial = False
             for _ in range(r.randint(3, 7)):
                 start = classes[0] if r.random() < 0.6 else r.choice(classes)
-                alias = absent if r.random() < 0.1 else r.choice(ALPHABET)
+                alias = absent if r.random() < 0.1 else hot if r.random() < 0.4 else r.choice(ALPHABET)
                 try:
                     obj = start.from_alias(alias)
                     got = idx.get(type(obj), -1)
@@ -418,7 +526,7 @@ def scratch_cases(ctx, w, n_cases, dag):
                     got = None
                 except Exception as e:  # noqa: BLE001
                     got = -2
-                    oracle_bad.append(("from_alias_exception", dict(error=repr(e), alias=alias, start=idx[start])))
+                    oracle_bad.append(("from_alias_exception", dict(error=repr(e), alias=alias, start=idx[start], hierarchy=hier)))
                 queries.append((idx[start], alias, got))
                 ctx.count("from_alias:%s:%s" % ("graph" if dag else "tree", "unknown" if got is None else "found"))
                 # direct statement of the clauses on the implementation
@@ -426,26 +534,35 @@ def scratch_cases(ctx, w, n_cases, dag):
                 carriers = [c for c in desc if alias in c.aliases]
                 if len(carriers) >= 2:
                     nontrivial = True
+                if len(carriers) >= 3:
+                    ctx.count("from_alias:three-or-more-carriers")
                 if got is None and carriers:
-                    oracle_bad.append(("unknown_alias_but_carrier_exists", dict(alias=alias, start=idx[start], carriers=[idx[c] for c in carriers])))
+                    oracle_bad.append(("unknown_alias_but_carrier_exists", dict(hierarchy=hier, alias=alias, start=idx[start], carriers=[idx[c] for c in carriers])))
                 if got is not None and got >= 0 and classes[got] not in carriers:
-                    oracle_bad.append(("resolved_class_without_alias_or_outside_family", dict(alias=alias, start=idx[start], got=got)))
-                if not dag and got != -2:
-                    exp = py_spec_tree(subtree_of(tree, idx[start]), alias)
+                    oracle_bad.append(("resolved_class_without_alias_or_outside_family", dict(hierarchy=hier, alias=alias, start=idx[start], got=got)))
+                if got != -2:
+                    # among all descendants carrying the alias the most recently defined one is instantiated
+                    exp = idx[carriers[-1]] if carriers else None
+                    assert exp == last_registered_carrier(hier, idx[start], alias)
                     if exp != got:
-                        oracle_bad.append(("shadowing_order", dict(tree=tree, start=idx[start], alias=alias, expected=exp, got=got,
-                                                                   rule="subclasses before their base; later registered siblings first")))
+                        oracle_bad.append(("last_registered_carrier_does_not_win", dict(
+                            hierarchy=hier, start=idx[start], alias=alias, expected=exp, got=got,
+                            carriers=[idx[c] for c in carriers],
+                            rule="hierarchy = [id, base ids, aliases] in order of definition; among all descendants of start "
+                                 "(itself included) carrying the alias the most recently defined one is instantiated")))
+                    if not dag and exp != old_dfs_answer(subtree_of(tree, idx[start]), alias):
+                        ctx.count("from_alias:tree:answer-differs-from-the-loop-before-the-repair")
             if dag:
                 term = "(%s, %s)" % (
                     clist("(%d, (%s, %s))" % (c, clist(cstr(a) for a in als), clist(str(k) for k in kids)) for c, als, kids in graph),
                     clist("(%d, %s, %s)" % (s, cstr(a), copt(g)) for s, a, g in queries))
-                obj = dict(kind="graph", graph=graph, queries=queries)
+                obj = dict(kind="graph", graph=graph, hierarchy=hier, queries=queries)
             else:
                 term = "(%s, %s)" % (ctree_term(tree), clist("(%d, %s, %s)" % (s, cstr(a), copt(g)) for s, a, g in queries))
-                obj = dict(kind="tree", tree=tree, queries=queries)
+                obj = dict(kind="tree", tree=tree, hierarchy=hier, queries=queries)
             cases.append((term, obj))
             ctx.case(obj, nontrivial=nontrivial)
-        del classes, cls
+        del classes, cls, tips
         if case_no % 50 == 49:
             gc.collect()
     gc.collect()
@@ -793,11 +910,24 @@ def _run(ctx):
     import numpy as np
 
     reg = regenerate(ctx)
+    pin_differs = bool(reg is not None and reg.get("pin_problems"))
+    if pin_differs:
+        # Model.v was written for one source text of class AliasedFactory; the correspondence and the
+        # search below decide whether the behaviour changed (and give a concrete input if it did)
+        ctx.log("class AliasedFactory differs from the source text pinned in gen/registry.py: %s" % "; ".join(reg["pin_problems"][:6]))
+        ctx.count("pin:class-AliasedFactory-differs-from-pinned-text")
+        if PIN_IS_FATAL:
+            ctx.fail("class AliasedFactory is no longer the source text that coq/C08/Model.v models: %s" % "; ".join(reg["pin_problems"][:6]),
+                     dict(correspondence="gen/registry.py PINNED_ALIASED_FACTORY vs alias.py", problems=reg["pin_problems"]),
+                     kind="tie", no_input=True)
+    elif reg is not None:
+        ctx.count("pin:class-AliasedFactory-is-the-pinned-text")
     pr = C.proof_step(ctx) if reg is not None else None
-    ctx.cov["trusted_base"].append("translator /verif/gen/registry.py (Python ast -> class tree, aliases, constructor parameters, nested alias calls)")
+    ctx.cov["trusted_base"].append("translator /verif/gen/registry.py (Python ast -> class tree, aliases, constructor parameters, nested alias calls; "
+                                   "pin of the source text of class AliasedFactory: %s)" % ("DIFFERS - from_alias tied by the correspondence only" if pin_differs else "matches"))
     ctx.cov["trusted_base"].append("harness spy on constructors / alias_factory_subclass_from_arg references (records class + bound arguments of built objects)")
     ctx.cov["rule"] = (
-        "cases = (a) snapshots of run-time class trees / graphs with from_alias look-ups, (b) calls of "
+        "cases = (a) snapshots of run-time class trees / graphs (branches registered in any order) with from_alias look-ups, (b) calls of "
         "alias_factory_subclass_from_arg on generated arguments, (c) nested configurations; distinct = distinct case "
         "content; non-trivial = (a) some look-up has >= 2 classes carrying the alias below the start class, "
         "(b) everything except the plain single-string alias, (c) configurations with at least one nested component")
@@ -837,12 +967,12 @@ def _run(ctx):
     bad = search_registry(ctx, w, spy)
 
     # ---- (a) from_alias on scratch class trees and graphs
-    n_tree = ctx.scale(160, 3000)
-    n_dag = ctx.scale(80, 1500)
+    n_tree = ctx.scale(160, 3000) * (2 if pin_differs else 1)
+    n_dag = ctx.scale(80, 1500) * (2 if pin_differs else 1)
     tcases, obad1 = scratch_cases(ctx, w, n_tree, dag=False)
     gcases, obad2 = scratch_cases(ctx, w, n_dag, dag=True)
     bad += obad1 + obad2
-    # the witness of last_registered_wins_any_tree_refuted, replayed on the implementation
+    # the hierarchy of the repaired defect (theorem last_registered_wins_old_loop_refuted): D must answer
     AFc = w.alias_mod.AliasedFactory
     wR = type("C08WitnessR", (AFc,), {})
     wB = type("C08WitnessB", (wR,), {})
@@ -851,16 +981,18 @@ def _run(ctx):
     wid = {wR: 0, wB: 1, wC: 2, wD: 3}
     wgot = wid.get(type(wR.from_alias("x")), -1)
     wtree = (0, [], [(1, [], [(3, ["x"], [])]), (2, ["x"], [])])
+    whier = [[0, [], []], [1, [0], []], [2, [0], ["x"]], [3, [1], ["x"]]]
     tcases.append(("(%s, [(0, \"x\", %s)])" % (ctree_term(wtree), copt(wgot)),
-                   dict(kind="tree", tree=wtree, queries=[(0, "x", wgot)], note="witness late_subclass_tree")))
+                   dict(kind="tree", tree=wtree, hierarchy=whier, queries=[(0, "x", wgot)], note="cross-branch hierarchy of the repaired defect")))
     ctx.case(tcases[-1][1])
-    ctx.count("from_alias:witness-late-subclass:%s" % wgot)
+    ctx.count("from_alias:cross-branch-hierarchy:%s" % wgot)
     if wgot != 3:
-        # "the class registered last wins" read literally: D was registered last, C is returned
-        ctx.fail("two classes share an alias and the one registered last does not win (cross-branch case)",
-                 dict(hierarchy="R; B(R); C(R) aliases={'x'}; D(B) aliases={'x'}", query="R.from_alias('x')",
-                      returned={0: "R", 1: "B", 2: "C", 3: "D"}.get(wgot, str(wgot)), registered_last="D"),
-                 kind="impl", key="last-registered-cross-branch")
+        # reported first: the smallest hierarchy on which "the one registered last wins" fails
+        detail = dict(hierarchy=whier, source="R; B(R); C(R) aliases={'x'}; D(B) aliases={'x'}", start=0, alias="x",
+                      expected=3, got=wgot, returned={0: "R", 1: "B", 2: "C", 3: "D"}.get(wgot, str(wgot)), registered_last="D")
+        ctx.fail("property violated on the implementation (last_registered_carrier_does_not_win): two classes share an alias and "
+                 "the one registered last does not win: %s" % json.dumps(detail)[:400],
+                 dict(check="last_registered_carrier_does_not_win", input=detail), kind="impl")
     del wR, wB, wC, wD, wid
     gc.collect()
     if ok_corr:
@@ -876,10 +1008,11 @@ def _run(ctx):
                 ctx.fail("correspondence file %s does not compile" % name, dict(correspondence=name, log_tail=log[-1500:]), kind="tie", no_input=True)
                 continue
             ctx.cov["traces_validated_against_impl"] += len(cases) - len(mism)
-            for k in mism[:5]:
+            for k in mism[:3]:
                 obj = cases[k][1]
                 ctx.fail("from_alias: implementation and model disagree on a run-time class %s: %s" % (obj["kind"], json.dumps(obj)[:400]),
-                         dict(case=obj, note="queries are (class from_alias is called on, alias, class instantiated or null); classes are numbered in registration order"),
+                         dict(case=obj, note="queries are (class from_alias is called on, alias, class instantiated or null); classes are numbered in "
+                                             "registration order; hierarchy = [id, base ids, aliases] in order of definition"),
                          kind="correspondence")
         # negative control (one file): flipping an expectation must produce a mismatch
         flip = None
@@ -1034,11 +1167,11 @@ def _run(ctx):
                 ctx.fail("negative control of the value comparator did not fire", dict(correspondence="canary_arg", got=mism), kind="tie", no_input=True)
 
     # ---- verdict
-    seen = set()
+    seen = {}
     for name, detail in bad:
-        if name in seen and len(seen) > 8:
+        seen[name] = seen.get(name, 0) + 1
+        if seen[name] > 3:
             continue
-        seen.add(name)
         ctx.fail("property violated on the implementation (%s): %s" % (name, json.dumps(detail, default=str)[:500]),
                  dict(check=name, input=detail), kind="impl")
     if (pr is not None and not pr["ok"]) and not bad:
@@ -1047,7 +1180,8 @@ def _run(ctx):
         "an object is identified with its class and the arguments it was built from (after nested alias resolution): "
         "constructors are deterministic functions of these - exercised by the bit-identical JSON-twin feature comparison",
         "value-level validation inside constructors (frequency ranges etc.) is not modelled; generated plain values are valid",
-        "class identity = registration rank; Python's set of class objects is modelled by the list of identities",
+        "class identity = registration rank = order of _registration_index (compared at run time on every scratch hierarchy and on "
+        "the registry); Python's set of class objects is modelled by the list of identities",
     ]
     return C.finish(ctx, "proof")
 
@@ -1060,33 +1194,23 @@ def replay(ctx, rp):
     case = f.get("replay", {})
     inp = case.get("input") or case.get("case") or {}
     alias_mod = importlib.import_module("pydrobert.speech.alias")
-    if isinstance(inp, dict) and inp.get("kind") in ("tree", "graph") or "tree" in inp:
-        tree = inp.get("tree")
-        if tree is not None:
-            classes = {}
-
-            def build(t, base):
-                cid, als, kids = t
-                classes[cid] = (t, base)
-                for k in kids:
-                    build(k, cid)
-
-            build(tree, None)
-            made = {}
-            for cid in sorted(classes):
-                t, base = classes[cid]
-                made[cid] = type("C08Replay%d" % cid, (alias_mod.AliasedFactory if base is None else made[base],), {"aliases": set(t[1])})
-            qs = inp.get("queries") or [(inp["start"], inp["alias"], inp.get("expected"))]
-            rc = 0
-            for s, a, g in qs:
-                try:
-                    got = [k for k, v in made.items() if v is type(made[s].from_alias(a))][0]
-                except ValueError:
-                    got = None
-                exp = py_spec_tree(subtree_of(tree, s), a)
-                print("from_alias on class %d, alias %r: implementation %r, specification %r" % (s, a, got, exp))
-                rc |= got != exp
-            return int(rc)
+    if isinstance(inp, dict) and inp.get("hierarchy"):
+        hier = inp["hierarchy"]
+        made = build_hierarchy(alias_mod.AliasedFactory, hier)
+        ri = [made[c].__dict__.get("_registration_index") for c, _, _ in hier]
+        print("hierarchy [id, base ids, aliases]:", hier)
+        print("_registration_index in order of definition:", ri)
+        rc = int(any(v is None for v in ri) or any(not a < b for a, b in zip(ri, ri[1:])))
+        qs = inp.get("queries") or [(inp["start"], inp["alias"], inp.get("expected"))]
+        for s, a, g in qs:
+            try:
+                got = [k for k, v in made.items() if v is type(made[s].from_alias(a))][0]
+            except ValueError:
+                got = None
+            exp = last_registered_carrier(hier, s, a)
+            print("from_alias on class %d, alias %r: implementation %r, last registered carrier %r" % (s, a, got, exp))
+            rc |= got != exp
+        return int(rc)
     if isinstance(inp, dict) and "document" in inp and "family" in inp:
         for modn in ("scales", "filters", "compute", "pre", "post"):
             m = importlib.import_module("pydrobert.speech." + modn)
